@@ -787,11 +787,13 @@ class BaseLoss(object):
         diff_loss = self._lossObj.diff_loss(solution_all[:,self._stateIndex])
 
         H = np.zeros((nP, nP))
+        # the cost squares the weighted residual, diff_loss carries one factor
+        weight = np.reshape(self._weight, (num_time - 1, len(self._stateName)))
 
         for i in range(num_time - 1):
             FF = ode_utils.vecToMatFF(solution_all[i,base_index_hess::], nS, nP)
             E = np.zeros(nS)
-            E[self._stateIndex] += diff_loss[i]
+            E[self._stateIndex] += diff_loss[i]*weight[i]
             H += scipy.sparse.kron(E, scipy.sparse.eye(nP)).dot(FF)
 
         # just the J^{\top}J part of the Hessian (which is guarantee to be PSD)
